@@ -693,6 +693,7 @@ fn base_cfg(r: &mut SmallRng, offline: bool, check_dups: bool) -> Cfg {
 }
 
 fn main() {
+    default_thread_stacks();
     let mut ctx = Ctx::from_args("C17");
     ctx.set_hang_limit(600);
     let debug = cfg!(debug_assertions);
@@ -733,14 +734,21 @@ fn main() {
         group,
     };
 
+    // every position of a retry pass is enumerated on inputs of this size (pass 1: up to 300 in both tiers)
+    let all_n: usize = if thorough { 300 } else { 100 };
+
     // 1. pass 1: every position (n <= 300) and the edge positions (larger n), each lender
     let small_ns: &[usize] = &[1, 2, 3, 10, 100, 300];
     let big_ns: Vec<usize> = if debug { vec![1000, 20_000, 100_000] } else if thorough { vec![1000, 20_000, 100_000, 150_000, 400_000] } else { vec![1000, 20_000, 100_000, 150_000] };
     for v in 0..VARIANTS.len() {
         for &n in small_ns {
             for wh in lenders(v) {
+                // quick tier: the 301 positions of the largest small input are enumerated for the key lender only
+                if !thorough && n == 300 && wh != Where::Keys {
+                    continue;
+                }
                 for offline in [false, true] {
-                    if offline && n != 10 && n != 300 {
+                    if offline && n != 10 && !(n == 300 && thorough) {
                         continue;
                     }
                     let cfg = base_cfg(&mut r, offline, false);
@@ -769,7 +777,7 @@ fn main() {
 
     // 2. retry passes forced by a duplicated key under check_dups(true): faults in passes 2, 3, 4 and in every rewind
     for v in 0..VARIANTS.len() {
-        for &n in &[10usize, 300, 5_000, 60_000] {
+        for &n in &[10usize, all_n, 5_000, 60_000] {
             for wh in lenders(v) {
                 for pass in 2..=4u32 {
                     let poss: &[Pos] = if n <= 300 { &[Pos::All] } else { &[Pos::First, Pos::Middle, Pos::Last, Pos::AtEnd] };
@@ -803,7 +811,7 @@ fn main() {
         for &n in &[105usize, 198, 340] {
             for wh in lenders(v) {
                 for pass in 2..=4u32 {
-                    let poss: &[Pos] = if n == 105 { &[Pos::All] } else { &[Pos::First, Pos::Middle, Pos::Last, Pos::AtEnd] };
+                    let poss: &[Pos] = if n == 105 && (thorough || pass == 2) { &[Pos::All] } else { &[Pos::First, Pos::Middle, Pos::Last, Pos::AtEnd] };
                     for &pos in poss {
                         let cfg = base_cfg(&mut r, pass == 3 && n == 198, false);
                         let s = mk(&mut r, "retry-pass", n, cfg, wh, FaultKind::Item { pass, pos }, Retry::Screened, None);
